@@ -117,6 +117,13 @@ def judge(ck, fails, origin):
                                  "how": "bin/check C09 --replay <this file> lexes the document again and validates the trace with spec/html/HtmlTrace.tla"})
 
 
+def sort_cases(path):
+    """TLC's workers append their lines in no particular order: sort them, so that trace ids and samples are reproducible."""
+    lines = sorted(set(open(path).readlines()))
+    with open(path, "w") as f:
+        f.writelines(lines)
+
+
 def run(ck):
     thorough = ck.tier == "thorough"
     consts = {}
@@ -125,7 +132,7 @@ def run(ck):
         cases = ck.path("cases-%s.ndjson" % mode)
         kw = {}
         if thorough:
-            n = 40000 if mode == "html" else 8000
+            n = 2500 if mode == "html" else 400   # TLC runs this many behaviours per worker
             kw = dict(simulate=n, depth=6, seed=ck.seed)
             consts[mode] = {"MaxLen": 5, "Sample": True, "behaviours": n}
         else:
@@ -142,8 +149,9 @@ def run(ck):
                         first = False
                         continue
                     out.write(line)
+        sort_cases(cases)
         tp = ck.path("trace-%s.ndjson" % mode)
-        s = ck.drive("htmldoc", "replay", "-cases", cases, "-out", tp, "-seed", ck.seed, "-variants", 2 if thorough else 1,
+        s = ck.drive("htmldoc", "replay", "-cases", cases, "-out", tp, "-seed", ck.seed, "-variants", 2 if thorough and mode == "html" else 1,
                      "-muts", 1, "-alsotmpl", 5 if thorough else 7, timeout=1200)
         if s["cases"] == 0:
             ck.fatal("generator %s produced no cases" % mode)
